@@ -90,7 +90,7 @@ func TestC14_MgrMonitor(t *testing.T) {
 		completes := map[datatransfer.ChannelID]int{}
 		// the accept timeout: off, or a few milliseconds with the responder's answer arriving
 		// during the open call / right after it / never
-		acceptTO := time.Duration(rapid.SampledFrom([]int{0, 0, 8}).Draw(t, "acceptTimeoutMs")) * time.Millisecond
+		acceptTO := time.Duration(rapid.SampledFrom([]int{0, 0, 12}).Draw(t, "acceptTimeoutMs")) * time.Millisecond
 		acceptMode := "after-open"
 		if acceptTO > 0 {
 			acceptMode = rapid.SampledFrom([]string{"during-open", "after-open", "never"}).Draw(t, "responderAnswers")
@@ -141,6 +141,7 @@ func TestC14_MgrMonitor(t *testing.T) {
 				}
 			}
 		}
+		tOpen := time.Now() // the monitor's accept timer is started inside the open call, i.e. after this instant
 		c, err := r.open(role, gen.Peer(1), 0, v, simpleCid(7), strNode("sel"), false)
 		if err != nil {
 			mfail(t, log, "HARNESS/setup", "open %s: %v", role, err)
@@ -154,8 +155,8 @@ func TestC14_MgrMonitor(t *testing.T) {
 			if !ok || st.Status() != datatransfer.Failed {
 				mfail(t, log, "C14/no-verdict", "no Accept arrived within the accept timeout %s but the channel was not closed with an error (status %s after %s)", acceptTO, datatransfer.Statuses[st.Status()], time.Since(t0).Round(time.Millisecond))
 			}
-			if time.Since(t0) < acceptTO/2 {
-				mfail(t, log, "C14/early-verdict", "the accept timeout %s fired after %s", acceptTO, time.Since(t0))
+			if time.Since(tOpen) < acceptTO {
+				mfail(t, log, "C14/early-verdict", "the accept timeout %s fired %s after the open call began", acceptTO, time.Since(tOpen))
 			}
 			r.syncAll()
 			nErr := 0
@@ -184,9 +185,23 @@ func TestC14_MgrMonitor(t *testing.T) {
 			r.toOngoing(c)
 		}
 		if acceptTO > 0 {
-			// accepted in time: the timeout must stay silent
+			// The Accept event reaches the monitor through the (asynchronous) event notifier; once the
+			// fence has passed, every subscriber has it. Only when that happened comfortably before the
+			// timer could expire is the case judged - on a loaded machine a timeout of milliseconds can
+			// expire honestly.
+			r.syncAll()
+			inTime := time.Since(tOpen) < acceptTO/2
+			if !inTime {
+				sp.Class("manager_monitor_accept_too_slow_to_judge")
+			}
 			time.Sleep(3 * acceptTO)
-			if st := r.sync(c.chid); st.Status() == datatransfer.Failed || st.Status() == datatransfer.Failing {
+			if !inTime {
+				if st := r.sync(c.chid); isTerminal(st.Status()) || isCleanup(st.Status()) {
+					sp.Eval()
+					return
+				}
+			}
+			if st := r.sync(c.chid); inTime && (st.Status() == datatransfer.Failed || st.Status() == datatransfer.Failing) {
 				mfail(t, log, "C14/accept-timeout-fired-although-accepted", "the responder's Accept arrived (%s) within the accept timeout %s, yet the monitor closed the channel: %q", acceptMode, acceptTO, st.Message())
 			}
 			sp.Class("manager_monitor_accepted_in_time_" + acceptMode)
